@@ -18,9 +18,21 @@
    region is CONSTANT ON EVERY CELL of the arrangement of those boundaries (two points joined
    by a polyline that avoids all of them get the same answer) -- provided the joins made by the
    path following are exact (ejoins, decidable per instance: ejoins_b).  This is the theorem
-   that makes the oracle's "one sample point per cell" a COMPLETE judgement for polygons. *)
+   that makes the oracle's "one sample point per cell" a COMPLETE judgement for polygons.
+   (5) C01_union_sound / C01_intersection_sound: ONE-STEP SOUNDNESS of | and & for two simple
+   counter-clockwise polygons whose boundaries cross (the recombination branch): the winding
+   numbers of the result curves add up to the indicator of the union (intersection) at every
+   point p whose vertical line avoids the vertices, and -- by (4) -- on the whole cell of p.
+   Proof: a one-dimensional argument along the vertical ray (crossings of dA outside B plus
+   crossings of dB outside A count the boundary of A u B; Lemmas/RaySum.v), completeness of the
+   mutual splitting, piece selection = winding number of the other operand at the midpoint, and
+   conservation of pieces by the path following (Lemmas/UnionSound.v).  Hypotheses: the
+   operands are simple (winding number 0 or 1 off the boundary: simple01, proved for rectangles),
+   general position, and four tolerance / exact-join conditions, each DECIDABLE per instance
+   (sound_hyps_b).  What remains of C01_partial: operands with holes / several components in
+   this branch, and simple01 for arbitrary simple polygons (the Jordan curve theorem). *)
 From Coq Require Import List Bool.
-From SV Require Import Spec.Spec Lemmas.Logic Lemmas.Fuel Lemmas.Construct Lemmas.Measure Lemmas.Cells Lemmas.CellsAll.
+From SV Require Import Spec.Spec Lemmas.Logic Lemmas.Fuel Lemmas.Construct Lemmas.Measure Lemmas.Cells Lemmas.CellsAll Lemmas.RaySum Lemmas.UnionSound.
 Import ListNotations.
 Open Scope Q_scope.
 
@@ -90,3 +102,57 @@ Example C01_cellwise_nonvacuous :
   exists env' s, eval_expr [exA; exB] ex_e2 = Ok (env', s) /\ ejoins [exA; exB] ex_e2 /\
     region s (1 # 2, 1 # 2) = RIn /\ region s (1 # 2, 1 # 2) = region s (1 # 2, 3 # 2).
 Proof. exact ex_cells_nested. Qed.
+
+(* ONE-STEP SOUNDNESS of | and & (two simple counter-clockwise polygons, recombination branch) *)
+Theorem C01_union_sound : forall ja jb a' b' p,
+  all_lines ja = true -> all_lines jb = true -> closed_chain ja = true -> closed_chain jb = true ->
+  jordan_pos ja = true -> jordan_pos jb = true -> simple01 ja -> simple01 jb ->
+  Subset.general_position ja jb -> tolerance_free ja jb ->
+  mids_tol_exact a' b' -> mids_tol_exact b' a' ->
+  line_avoids_vertices a' b' (px p) -> no_common ja jb (px p) ->
+  forall s, op_or (SC (CS ja)) (SC (CS jb)) = Ok (a', b', s) ->
+  contains_shape (SC (CS ja)) (SC (CS jb)) = Ok false ->
+  contains_shape (SC (CS jb)) (SC (CS ja)) = Ok false ->
+  faithful_follow (jordans a' ++ jordans b') (midpoints_shapes a' b' true false) ->
+  Zsum (map (fun j => wn_lines j p) (jordans s))
+  = (if (wn_lines ja p =? 0)%Z && (wn_lines jb p =? 0)%Z then 0 else 1)%Z.
+Proof. exact op_or_union_sound. Qed.
+Theorem C01_intersection_sound : forall ja jb a' b' p,
+  all_lines ja = true -> all_lines jb = true -> closed_chain ja = true -> closed_chain jb = true ->
+  jordan_pos ja = true -> jordan_pos jb = true -> simple01 ja -> simple01 jb ->
+  Subset.general_position ja jb -> tolerance_free ja jb ->
+  mids_tol_exact a' b' -> mids_tol_exact b' a' ->
+  line_avoids_vertices a' b' (px p) -> no_common ja jb (px p) ->
+  forall s, op_and (SC (CS ja)) (SC (CS jb)) = Ok (a', b', s) ->
+  contains_shape (SC (CS ja)) (SC (CS jb)) = Ok false ->
+  contains_shape (SC (CS jb)) (SC (CS ja)) = Ok false ->
+  faithful_follow (jordans a' ++ jordans b') (midpoints_shapes a' b' false true) ->
+  Zsum (map (fun j => wn_lines j p) (jordans s))
+  = (if (wn_lines ja p =? 1)%Z && (wn_lines jb p =? 1)%Z then 1 else 0)%Z.
+Proof. exact op_and_inter_sound. Qed.
+(* all hypotheses except simple01 decided by evaluation *)
+Theorem C01_union_sound_checked : forall ja jb a' b' new p,
+  simple01 ja -> simple01 jb -> sound_hyps_b ja jb true false p = true ->
+  recombine (SC (CS ja)) (SC (CS jb)) true false = Ok (a', b', new) ->
+  Zsum (map (fun j => wn_lines j p) new)
+  = (if (wn_lines ja p =? 0)%Z && (wn_lines jb p =? 0)%Z then 0 else 1)%Z.
+Proof. exact recombine_union_checked. Qed.
+(* the one-dimensional core: crossings of dA outside B plus crossings of dB outside A count the
+   boundary of the union (and inside / inside the boundary of the intersection) *)
+Theorem C01_ray_sum_union : forall ja jb p,
+  no_vertex_on ja (px p) -> no_vertex_on jb (px p) -> no_common ja jb (px p) ->
+  wn01_off ja (px p) -> wn01_off jb (px p) ->
+  (Zsum (map (fun s => cr (first_pt s) (last_pt s) p * b2z (wn_lines jb (hit (px p) s) =? 0)) ja)
+   + Zsum (map (fun t => cr (first_pt t) (last_pt t) p * b2z (wn_lines ja (hit (px p) t) =? 0)) jb)
+   = (if (wn_lines ja p =? 0) && (wn_lines jb p =? 0) then 0 else 1))%Z.
+Proof. exact ray_sum_lines_union. Qed.
+Print Assumptions C01_union_sound.
+Print Assumptions C01_intersection_sound.
+Print Assumptions C01_union_sound_checked.
+Print Assumptions C01_ray_sum_union.
+(* non-vacuity: two overlapping squares meet every hypothesis (simple01 proved, the rest by
+   evaluation), and the region of exA | exB is In, In, In, Out at four points of four cells *)
+Example C01_union_nonvacuous :
+  exists a' b' s, op_or exA exB = Ok (a', b', s) /\
+    region s p_A = RIn /\ region s p_AB = RIn /\ region s p_B = RIn /\ region s p_out = ROut.
+Proof. exact ex_op_or_region. Qed.
